@@ -60,3 +60,17 @@ Theorem C14_client_deadlines : forall T K c op payload reply b,
     (if cc_write_to c then [CArmWrite] else []) ++ [CSent b] ++ (if cc_read_to c then [CArmRead] else []).
 Proof. exact send_arms. Qed.
 Print Assumptions C14_client_deadlines.
+
+(* the life cycle of a Client value: after ANY history of Connect (succeeding or failing at any stage),
+   Close and Send calls, Send never dereferences a missing connection or codec ... *)
+Theorem C14_lifecycle_no_panic : forall ops, ~ In LPanic (clife_run clife0 ops).
+Proof. intros ops. apply clife_run_no_panic. unfold clife_inv; cbn; discriminate. Qed.
+Print Assumptions C14_lifecycle_no_panic.
+
+(* ... and it returns the "not connected" error exactly when the last Connect/Close on this client was
+   not a successful Connect; otherwise it performs the exchange judged by C14_payload_only_for_matching_success *)
+Theorem C14_not_connected_after_any_history : forall ops,
+  clife_run clife0 (ops ++ [CSend]) =
+  (clife_run clife0 ops ++ [if connected_after false ops then LExchange else LErr])%list.
+Proof. exact clife_send_after. Qed.
+Print Assumptions C14_not_connected_after_any_history.
